@@ -96,14 +96,14 @@ func limitPredicate(c *core.Ctx) *ssa.Function {
 			if call := e.Call(); call != nil {
 				t := an.Callee(call)
 				if t != nil && t.Pkg != nil && t.Pkg.Pkg.Path() == "sync/atomic" && t.Name() == "Load" && len(call.Common().Args) > 0 {
-					if fa, ok := call.Common().Args[0].(*ssa.FieldAddr); ok && an.IsNamed(fa.X.Type(), workersPkg, "PoolManager") {
+					if fa, ok := call.Common().Args[0].(*ssa.FieldAddr); ok && nestedIn(c, fa.X.Type(), workersPkg, "PoolManager") {
 						loads = true
 					}
 				}
 			}
 			if bo, ok := e.Instr.(*ssa.BinOp); ok && (bo.Op == token.GTR || bo.Op == token.GEQ || bo.Op == token.LSS || bo.Op == token.LEQ) {
 				for _, o := range []ssa.Value{bo.X, bo.Y} {
-					if f, owner := an.TerminalField(o); f != nil && an.IsNamed(owner, workersPkg, "PoolManager") && !an.IsNamed(f.Type(), "sync/atomic", "Uint64") {
+					if f, owner := an.TerminalField(o); f != nil && nestedIn(c, owner, workersPkg, "PoolManager") && !an.IsNamed(f.Type(), "sync/atomic", "Uint64") {
 						if _, isConst := bo.X.(*ssa.Const); !isConst {
 							if _, isConst := bo.Y.(*ssa.Const); !isConst {
 								cmp = true
@@ -497,7 +497,7 @@ func c02(c *core.Ctx, r *core.Report) {
 			}
 			isLimit := func(v ssa.Value) bool {
 				f, owner := an.TerminalField(v)
-				return f != nil && an.IsNamed(owner, workersPkg, "PoolManager") && !an.IsNamed(f.Type(), "sync/atomic", "Uint64")
+				return f != nil && nestedIn(c, owner, workersPkg, "PoolManager") && !an.IsNamed(f.Type(), "sync/atomic", "Uint64")
 			}
 			op := bo.Op
 			x, y := bo.X, bo.Y
